@@ -487,7 +487,12 @@ def execute(w: World, op):
             coq = f"(ODel {ti} (KNode {key['nid']}))"
         elif "id" in key:
             pk = key["id"]
-            coq = f"(ODel {ti} (KDid {H.coq_did(pk)}))"
+            cf = w.calc_fn(w.calcs[ti])
+            try:
+                fb = "(Some " + H.coq_did(hash(pk) if cf is None else cf(t, pk)) + ")"
+            except CallbackFault:
+                fb = "None"
+            coq = f"(ODel {ti} (KDid {H.coq_did(pk)} {fb}))"
         else:
             pk = w.dobj(key["d"])
             as_did = H.coq_did(pk) if isinstance(pk, (int, str)) and not isinstance(pk, bool) else None
@@ -508,7 +513,7 @@ def execute(w: World, op):
         for nd in tree_nodes(t):
             r = w.rel(nd)
             kv = tbl.get(str(r), nd.name)
-            ents.append(f"({r}, {H.coq_opt(kv, H.coq_text)})")
+            ents.append(f"({r}%nat, {H.coq_opt(kv, H.coq_text)})")
         coq = f"(OSort {ti} {p} {H.coq_list(ents)} {H.coq_bool(reverse)} {H.coq_bool(deep)})"
         if keyfn is None:
             key = None
@@ -552,7 +557,7 @@ def execute(w: World, op):
         _, ti, n, verd = op
         pn = _need(w.parent_ref(ti, n))
         t = w.trees[ti]
-        ents = [f"({w.rel(nd)}, {coq_verdict(verd.get(str(w.rel(nd)), 'T'))})" for nd in tree_nodes(t)]
+        ents = [f"({w.rel(nd)}%nat, {coq_verdict(verd.get(str(w.rel(nd)), 'T'))})" for nd in tree_nodes(t)]
         coq = f"(OFilter {ti} {n} {H.coq_list(ents)})"
 
         def pred(node):
